@@ -192,6 +192,12 @@ func c17() {
 	for k := 1; k <= run.N(6, 40); k++ {
 		hists = append(hists, hist{kind: "binary-replaced-then-eio-while-hashing", k: k}, hist{kind: "binary-replaced-then-short-read-while-hashing", k: k})
 	}
+	// the same binary under the same base name in another directory, profiled after a run on the first path was interrupted
+	// (its leftovers - temporary files with a valid header - lie in the shared cache directory) or completed
+	for _, k := range []int{100, 4096, 5000, 8192, 20000, total / 2, total - 100} {
+		hists = append(hists, hist{kind: "same-name-in-another-directory-after-interrupted-run", k: k})
+	}
+	hists = append(hists, hist{kind: "same-name-in-another-directory-after-complete-run"}, hist{kind: "other-binary-same-name-in-another-directory-after-complete-run"})
 	for i := 0; i < run.N(6, 200); i++ {
 		hists = append(hists, hist{kind: "two-interruptions", k: r0.Intn(total + 1), k2: r0.Intn(total + 1)})
 	}
@@ -431,6 +437,29 @@ func c17() {
 					map[string]any{"check": "C17", "history": h.kind, "k": h.k, "steps": steps, "stderr_tail": tail(res.Stderr, 600)})
 				return
 			}
+		case "same-name-in-another-directory-after-interrupted-run", "same-name-in-another-directory-after-complete-run", "other-binary-same-name-in-another-directory-after-complete-run":
+			dirA, dirB := filepath.Join(th.Dir, "a"), filepath.Join(th.Dir, "b")
+			os.MkdirAll(dirA, 0o755)
+			os.MkdirAll(dirB, 0o755)
+			pathA, pathB := filepath.Join(dirA, "app"), filepath.Join(dirB, "app")
+			copyFile(pathA, fx.binA)
+			copyFile(pathB, fx.binA)
+			if h.kind == "same-name-in-another-directory-after-interrupted-run" {
+				res := step(vlib.ToolRun{Argv: argv(pathA), FakeMode: "block", Listing: fx.listA, K: h.k, KillAfter: true}, fmt.Sprintf("run 1 on %s: disassembler emits %d bytes and blocks, profiler SIGKILLed", pathA, h.k))
+				if res == nil || !res.Killed {
+					run.SoftInconclusive("kill history: the tool never signalled")
+					return
+				}
+				run.Count("real_kills", 1)
+			} else {
+				step(vlib.ToolRun{Argv: argv(pathA), FakeMode: "emit", Listing: fx.listA}, "run 1 on "+pathA+": normal")
+			}
+			if h.kind == "other-binary-same-name-in-another-directory-after-complete-run" {
+				copyFile(pathB, fx.binB)
+				wantProfile, finalListing = coldB, fx.listB
+			}
+			target = pathB
+			steps = append(steps, "the following run profiles "+pathB)
 		case "crash-on-entering-nth-write-or-rename":
 			set := "write,rename,renameat,renameat2,fsync,ftruncate,unlink,unlinkat"
 			step(vlib.ToolRun{Argv: argv(target), FakeMode: "emit", Listing: fx.listA, Strace: []string{"-f", "-e", "trace=" + set, "-e", fmt.Sprintf("inject=%s:signal=KILL:when=%d", set, h.k)}},
